@@ -37,7 +37,7 @@ def nudge_wire(j, rng):
         f = float(Fraction(j))
         if f == 0.0:
             return j
-        k = rng.choice([-2, -1, 1, 2])
+        k = rng.choice([-4, -3, -2, -1, 1, 2, 3, 4])
         for _ in range(abs(k)):
             f = math.nextafter(f, math.inf if k > 0 else -math.inf)
         return lbg.wnum(f)
@@ -97,6 +97,13 @@ def run_kernels(ks, gen_report, seed, n_lattice, n_real, driver, custom_gen=None
                     args = [g.value(p[1], p[2] if len(p) > 2 else None, stream,
                                     p[3] if len(p) > 3 else None)
                             for p in k['params']]
+                pre = lbg.PRECONDITIONS.get(k.get('well_conditioned'))
+                if pre is not None and stream == 'real':
+                    tries = 0
+                    while not pre(args) and tries < 50:
+                        args = [g.value(p[1], p[2] if len(p) > 2 else None, stream,
+                                        p[3] if len(p) > 3 else None) for p in k['params']]
+                        tries += 1
                 status, val = lbg.call_real(f, args, k.get('const_args'))
                 if status == 'err':
                     if not k.get('err_as_none'):
@@ -115,6 +122,7 @@ def run_kernels(ks, gen_report, seed, n_lattice, n_real, driver, custom_gen=None
                 meta.append((k, stream, wargs, creal))
     answers = driver.run(reqs)
     redo = []
+    redo_num = []
     for (k, stream, wargs, creal), (ok, val) in zip(meta, answers):
         st = stats[k['name']]
         st['cases'] += 1
@@ -129,12 +137,7 @@ def run_kernels(ks, gen_report, seed, n_lattice, n_real, driver, custom_gen=None
         else:
             st['some'] += 1
         if not lbg.same_shape(creal, cmodel):
-            if stream == 'real':
-                redo.append((k, wargs, creal, cmodel))
-                continue
-            st['mismatch'] += 1
-            mismatches.append({'kernel': k['name'], 'kind': 'discrete', 'stream': stream,
-                               'args': wargs, 'impl': creal, 'model': cmodel})
+            redo.append((k, stream, wargs, creal, cmodel))
             continue
         scale = max([input_scale(wargs)] + [abs(x) for x in lbg.flat_numbers(cmodel)])
         d = lbg.max_diff(creal, cmodel)
@@ -142,29 +145,58 @@ def run_kernels(ks, gen_report, seed, n_lattice, n_real, driver, custom_gen=None
         if float(rel) > st['max_rel_diff']:
             st['max_rel_diff'] = float(rel)
         if rel > TOL * k.get('tol_factor', 1):
-            st['mismatch'] += 1
-            mismatches.append({'kernel': k['name'], 'kind': 'numeric', 'stream': stream,
-                               'args': wargs, 'impl': creal, 'model': cmodel,
-                               'rel_diff': float(rel)})
+            redo_num.append((k, stream, wargs, creal, cmodel, d, scale))
+    # conditioning probe for numeric disagreements: an ill-conditioned input (nearly
+    # parallel planes, a tiny determinant ...) legitimately amplifies rounding; measure the
+    # model's own sensitivity to one-ulp changes of the inputs and accept differences that
+    # are small relative to it
+    if redo_num:
+        import random
+        rng = random.Random('%s/cond' % seed)
+        reqs3 = []
+        for (k, stream, wargs, creal, cmodel, d, scale) in redo_num:
+            for _ in range(12):
+                reqs3.append((k['name'], nudge_wire(wargs, rng)))
+        ans3 = driver.run(reqs3)
+        for i, (k, stream, wargs, creal, cmodel, d, scale) in enumerate(redo_num):
+            st = stats[k['name']]
+            sens = Fraction(0)
+            for (ok, val) in ans3[12 * i: 12 * i + 12]:
+                if ok:
+                    cm2 = lbg.canon_wire(val, k['ret'])
+                    if lbg.same_shape(cm2, cmodel):
+                        sens = max(sens, lbg.max_diff(cm2, cmodel))
+                    else:
+                        sens = None
+                        break
+            if sens is None or d <= 1000 * sens + TOL * scale:
+                st['borderline'] += 1
+                st['ill_conditioned'] = st.get('ill_conditioned', 0) + 1
+            else:
+                st['mismatch'] += 1
+                mismatches.append({'kernel': k['name'], 'kind': 'numeric', 'stream': stream,
+                                   'args': wargs, 'impl': creal, 'model': cmodel,
+                                   'rel_diff': float(d / scale),
+                                   'model_sensitivity_1ulp': float(sens)})
     # borderline probe for discrete disagreements on random doubles
     if redo:
         import random
         rng = random.Random('%s/nudge' % seed)
         reqs2 = []
-        for (k, wargs, creal, cmodel) in redo:
-            for _ in range(6):
+        for (k, stream, wargs, creal, cmodel) in redo:
+            for _ in range(12):
                 reqs2.append((k['name'], nudge_wire(wargs, rng)))
         ans2 = driver.run(reqs2)
-        for i, (k, wargs, creal, cmodel) in enumerate(redo):
+        for i, (k, stream, wargs, creal, cmodel) in enumerate(redo):
             st = stats[k['name']]
             stable = True
-            for (ok, val) in ans2[6 * i: 6 * i + 6]:
+            for (ok, val) in ans2[12 * i: 12 * i + 12]:
                 if not ok or not lbg.same_shape(lbg.canon_wire(val, k['ret']), cmodel):
                     stable = False
             if stable:
                 st['mismatch'] += 1
                 mismatches.append({'kernel': k['name'], 'kind': 'discrete',
-                                   'stream': 'real', 'args': wargs, 'impl': creal,
+                                   'stream': stream, 'args': wargs, 'impl': creal,
                                    'model': cmodel})
             else:
                 st['borderline'] += 1
